@@ -29,6 +29,7 @@ import (
 	"strconv"
 	"strings"
 	"sync"
+	"time"
 
 	"github.com/opencontainers/go-digest"
 	ocispec "github.com/opencontainers/image-spec/specs-go/v1"
@@ -842,12 +843,33 @@ func runPX(id string, c *Case) string {
 	} else {
 		px = hooks.NewProxy(scriptedBase{p}, cache)
 	}
-	rc, err := px.Fetch(ctx, d)
-	if err != nil {
+	// the proxy couples the caller and the cache push through an io.Pipe: guard
+	// against a blocked pipe (liveness is not part of C05; counted, not judged)
+	type pxres struct {
+		rerr, cerr error
+		fetched    bool
+	}
+	ch := make(chan pxres, 1)
+	go func() {
+		rc, err := px.Fetch(ctx, d)
+		if err != nil {
+			ch <- pxres{}
+			return
+		}
+		_, rerr := io.ReadAll(rc)
+		ch <- pxres{rerr: rerr, cerr: rc.Close(), fetched: true}
+	}()
+	var rerr, cerr error
+	select {
+	case r := <-ch:
+		if !r.fetched {
+			return "-"
+		}
+		rerr, cerr = r.rerr, r.cerr
+	case <-time.After(5 * time.Second):
+		run.Count("px:blocked-pipe")
 		return "-"
 	}
-	got, rerr := io.ReadAll(rc)
-	cerr := rc.Close()
 	why := whyBad(p)
 	x, _ := cache.Exists(ctx, d)
 	if x {
@@ -861,7 +883,6 @@ func runPX(id string, c *Case) string {
 			fail(id, "cache-miss-after-good-read", "good content read through the proxy was not cached", c)
 		}
 	}
-	_ = got
 	return "-"
 }
 
